@@ -235,11 +235,26 @@ fn gen_list_arg_of(ctx: &mut Ctx, r: &mut Rng, elems: Vec<Unifiable>) -> (Unifia
     let elems = written_elems;
     let _ = &logical;
     if n >= 2 && !ctx.no_tails && r.chance(1, 3) {
-        let k = 1 + r.below(n - 1);
-        let t = ctx.fresh();
-        let back = proper_list(elems[k..].to_vec(), None);
-        ctx.prior.push(unify_goal(t.clone(), back));
-        let written = proper_list(elems[..k].to_vec(), Some(t));
+        // the list is written in 2-4 pieces chained through bound tail variables:
+        // `[e1 | $T1]`, `$T1 = [e2, e3 | $T2]`, `$T2 = [e4]` (the last piece may be the empty list)
+        let mut cuts = vec![1 + r.below(n - 1)];
+        while r.chance(1, 2) && cuts.len() < 3 {
+            let last = *cuts.last().unwrap();
+            if last >= n { break; }
+            cuts.push(last + 1 + r.below(n - last));
+        }
+        // pieces: [0..cuts[0]), [cuts[0]..cuts[1]), ..., [cuts[last]..n)
+        let mut bounds = vec![0]; bounds.extend(cuts.iter().cloned()); bounds.push(n);
+        let npieces = bounds.len() - 1;
+        let tails: Vec<Unifiable> = (0..npieces - 1).map(|_| ctx.fresh()).collect();
+        // bind from the back so that every tail is bound before the piece that mentions it is used
+        for pi in (1..npieces).rev() {
+            let piece = elems[bounds[pi]..bounds[pi + 1]].to_vec();
+            let tail = if pi + 1 < npieces { Some(tails[pi].clone()) } else { None };
+            let back = if piece.is_empty() { match tail { Some(t) => t, None => proper_list(vec![], None) } } else { proper_list(piece, tail) };
+            ctx.prior.push(unify_goal(tails[pi - 1].clone(), back));
+        }
+        let written = proper_list(elems[..bounds[1]].to_vec(), Some(tails[0].clone()));
         let w = ctx.operand(r, written);
         (w, logical)
     } else {
